@@ -33,6 +33,7 @@ type c13Decl struct {
 	Script   string
 	Marker   string
 	Adjacent bool
+	Anno     bool // ---@param lines for a leading run of the parameters stand directly above the function
 	DocOpen  bool // documentation not asserted (an alias without a comment of its own may show the comment of what it names)
 	XLine    int // line / column of a use in the companion file (another document); -1 = none
 	XCol     int
@@ -143,6 +144,16 @@ func c13GenFile(r *Rng, idx int) (string, []c13Decl) {
 		if redeclared {
 			d.Kind += "-redeclared"
 		}
+		annotated := false
+		if len(d.Params) >= 2 && r.Fork(uint64(0x616e6e+i)).Chance(1, 2) {
+			// ---@param lines for a leading run of the parameters, directly above the function: the label still lists every
+			// parameter in order, each separated from the next (how the annotation lines show in the documentation part
+			// is not asserted)
+			for _, pn := range d.Params[:r.Fork(uint64(0x616e6f+i)).Range(1, len(d.Params)-1)] {
+				lines = append(lines, fmt.Sprintf("---@param %s %s", pn, r.Pick([]string{"number", "string", "table"})))
+			}
+			annotated = true
+		}
 		d.DeclLine = len(lines)
 		d.DeclCol = strings.Index(stmt, d.Name)
 		if trailing != "" {
@@ -159,6 +170,10 @@ func c13GenFile(r *Rng, idx int) (string, []c13Decl) {
 		}
 		if strings.HasSuffix(d.Kind, "-alias") && d.Comment == nil {
 			d.DocOpen = true
+		}
+		if annotated {
+			d.DocOpen = true
+			d.Anno = true
 		}
 		decls = append(decls, d)
 	}
@@ -317,6 +332,9 @@ func runC13(c *Ctx) {
 					if dirty {
 						cls += "|unsaved-edit"
 					}
+					if d.Anno {
+						cls += "|with-param-annotations"
+					}
 					witness := map[string]interface{}{"file": files[rel], "decl": d, "position": pos, "unsaved_edit": dirty}
 					if hv == nil || strings.TrimSpace(hv.Contents.Value) == "" {
 						c.Report("hover-empty|"+cls, fmt.Sprintf("hover on %s (%s) at %s:%v returns nothing", d.Name, d.Kind, rel, pos), witness)
@@ -337,7 +355,7 @@ func runC13(c *Ctx) {
 						c.Report("label-misses-literal|"+cls, fmt.Sprintf("hover label %q does not show the literal %s", truncate(label, 160), d.Literal), witness)
 					}
 					if len(d.Params) > 0 {
-						re := regexp.MustCompile(`\b` + strings.Join(d.Params, `\b.*\b`) + `\b`)
+						re := regexp.MustCompile(`\b` + strings.Join(d.Params, `\b[^,()]*,\s*\b`) + `\b`)
 						if !re.MatchString(label) {
 							c.Report("label-misses-parameters|"+cls, fmt.Sprintf("hover label %q does not show the parameters %v in order", truncate(label, 160), d.Params), witness)
 						}
